@@ -300,7 +300,10 @@ struct Parameterizer<'a> {
 
 impl<'a> Parameterizer<'a> {
     fn new_slot(&mut self, ty: Ty, orig: Value, cx: &Cx, extra: Option<&'static str>, keep_non_null: bool) -> usize {
-        let value = if self.rng.chance(11, 20) { orig } else { hostile(self.rng, ty) };
+        // inside a recursive CTE the literals bound the recursion (`n < 5`): a hostile value there makes the
+        // query run (practically) forever on both sides, so those placeholders keep the original value
+        let keep = cx.nest.contains(&"recursive-cte") || self.rng.chance(11, 20);
+        let value = if keep { orig } else { hostile(self.rng, ty) };
         let value = if keep_non_null && value.is_null() { Value::Int(1) } else { value };
         let mut tags = cx.tags();
         if let Some(x) = extra {
